@@ -323,7 +323,7 @@ impl World {
             let flat = flatten(tree, di >= 1 && h.ops.len() % 2 == 0);
             for r in &flat.refs {
                 if !w.all_refs_ever.insert(*r) && w.init_error.is_none() {
-                    w.init_error = Some(fail("c09:fresh-referent-repeats", format!("Ref::new() returned {r}, which an earlier Ref::new() of this process already returned")));
+                    w.init_error = Some(fail("ref:fresh-referent-repeats", format!("Ref::new() returned {r}, which an earlier Ref::new() of this process already returned")));
                 }
             }
             let absent = Ref::new();
@@ -438,7 +438,15 @@ impl World {
                     )
                 })
                 .collect();
-            match (style / 2) % 4 {
+            // a UniqueId named twice: the value given last is the instance's (the decoy comes first)
+            let mut props = props;
+            if style % 7 == 3 {
+                if let Some(pos) = props.iter().position(|(k, _)| k == "UniqueId") {
+                    let decoy = rbx_types::Variant::UniqueId(uid_pool(((style / 7) % 4) as u8));
+                    props.insert(pos.min(style % (props.len() + 1)).min(pos), ("UniqueId".to_string(), decoy));
+                }
+            }
+            match (style / 2) % 5 {
                 0 => {
                     for (k, v) in props {
                         b.add_property(k.as_str(), v);
@@ -450,16 +458,25 @@ impl World {
                     }
                 }
                 2 => b = b.with_properties(props.iter().map(|(k, v)| (k.as_str(), v.clone()))),
-                _ => b.add_properties(props.iter().map(|(k, v)| (k.as_str(), v.clone()))),
+                3 => b.add_properties(props.iter().map(|(k, v)| (k.as_str(), v.clone()))),
+                _ => {
+                    // one by one first, the rest in bulk
+                    let mut it = props.into_iter();
+                    if let Some((k, v)) = it.next() {
+                        b.add_property(k.as_str(), v);
+                    }
+                    let rest: Vec<(String, rbx_types::Variant)> = it.collect();
+                    b = b.with_properties(rest.iter().map(|(k, v)| (k.as_str(), v.clone())));
+                }
             }
-            let kids: Vec<InstanceBuilder> = flat
+            let mut kids: Vec<InstanceBuilder> = flat
                 .parent
                 .iter()
                 .enumerate()
                 .filter(|(_, p)| **p == Some(i))
                 .map(|(j, _)| build(j, flat, mnodes))
                 .collect();
-            match (style / 3) % 4 {
+            match (style / 3) % 6 {
                 0 => {
                     for k in kids {
                         b.add_child(k);
@@ -471,7 +488,25 @@ impl World {
                     }
                 }
                 2 => b = b.with_children(kids),
-                _ => b.add_children(kids),
+                3 => b.add_children(kids),
+                4 => {
+                    // bulk call on a builder that already has children
+                    if !kids.is_empty() {
+                        let first = kids.remove(0);
+                        b.add_child(first);
+                    }
+                    b = b.with_children(kids);
+                }
+                _ => {
+                    if !kids.is_empty() {
+                        let first = kids.remove(0);
+                        b = b.with_child(first);
+                    }
+                    let mid = kids.len() / 2;
+                    let tail = kids.split_off(mid);
+                    b.add_children(kids);
+                    b.add_children(tail);
+                }
             }
             b
         }
@@ -799,7 +834,7 @@ impl World {
                 let flat = flatten(tree, tree.count() % 5 == 2);
                 for r in &flat.refs {
                     if self.all_refs_ever.contains(r) {
-                        return Err(fail("c09:fresh-referent-repeats", format!("Ref::new() returned {r}, which is already in use in this process")));
+                        return Err(fail("ref:fresh-referent-repeats", format!("Ref::new() returned {r}, which is already in use in this process")));
                     }
                 }
                 let absent = Ref::new();
